@@ -337,6 +337,8 @@ def run(ctx):
     quoting(ctx)
     follow(ctx)
     escaping(ctx)
+    from .c08 import cr_and_leading_lf
+    cr_and_leading_lf(ctx)
     minimise(ctx)
     from . import c13, c13_parser
     c13_parser.run(ctx)
